@@ -424,7 +424,7 @@ def check_C06(tier):
     cfgs = cfgs_basic(tier) + [mk("p2skew", [10, 1], 11, "rate", 1, 1), idle]
     if tier == "quick":
         cfgs = [cfgs[0], cfgs[2], cfgs[3], idle]
-    return v2_property("C06", tier, cfgs, "alone", free=True, v1kinds=("alone",),
+    return v2_property("C06", tier, cfgs, "alone", free=True, v1kinds=("alone", "dyn"),
                        nontrivial=lambda t: t.get("QA") is not None,
                        rule="TLC liveness (every written item eventually received, termination) under fairness, in bounded PrioV2 configs incl. an unbuffered "
                             "input and skewed priorities; real code: every cover path is replayed gated, then the continuation releases and drains everything "
